@@ -39,6 +39,32 @@ def reach_self_calls(repo, cls, start, limit=60):
     return seen
 
 
+def rule_layer_lock(ctx, rule):
+    repo = ctx.repo
+    # the per-layer lock belongs to toLower: it is not re-entrant, so a layer method that takes it and then sends (every
+    # send goes through toLower of the same layer) blocks on itself, with the lock held for ever after
+    base_l = repo.cls(LAYERS, "YowLayer")
+    n_lock = 0
+    for m in sorted(repo.modules.values(), key=lambda m: m.relpath):
+        if "/demos/" in m.relpath:
+            continue
+        for c in m.classes.values():
+            if base_l not in repo.mro(c):
+                continue
+            for name, fn in sorted(c.methods.items()):
+                if c is base_l and name == "toLower":
+                    continue
+                uses = [x for x in ast.walk(fn) if (isinstance(x, ast.With) and any(unparse(i.context_expr) == "self.lock" for i in x.items)) or
+                        (isinstance(x, ast.Call) and isinstance(x.func, ast.Attribute) and x.func.attr == "acquire" and unparse(x.func.value) == "self.lock")]
+                for u in uses:
+                    n_lock += 1
+                    inner = u.body if isinstance(u, ast.With) else fn.body
+                    sends = [unparse(y.func) for st_ in inner for y in ast.walk(st_) if isinstance(y, ast.Call) and is_self_attr(y.func) and y.func.attr not in ("lock",)]
+                    ctx.violate(rule, where(m.relpath, "%s.%s" % (c.name, name), u.lineno), "self.lock taken in %s.%s" % (c.name, name),
+                                "the layer's own lock is taken outside toLower%s: the lock is not re-entrant, anything under it that sends goes through toLower of the same layer and blocks on itself - the lock stays held and every later send through this layer hangs" % (" (calls %s)" % ", ".join(sends[:3]) if sends else ""))
+    ctx.hold(rule, where(LAYERS, "YowLayer.toLower", None), "the layer lock is only taken by toLower", "no other layer method takes self.lock (%d found)" % n_lock) if not n_lock else None
+
+
 def run(ctx):
     repo = ctx.repo
     ctx.rule("C12.order", "no downward path delivers upward; no layer-lock holder takes the flush lock; nothing is called under the ping lock", floor=20)
@@ -95,6 +121,7 @@ def run(ctx):
                               "this event can be raised from inside a send (%s reports %s synchronously) while every upper layer's lock is held, and it is not detached: the handlers above (reconnect, send) run under those locks - the failed send never returns and every other sender blocks" % (via, cb),
                               "detached: delivered by the stack loop, not under the sender's locks")
     ctx.units["C12.sync_callbacks"] = sorted(sync_cbs)
+    rule_layer_lock(ctx, "C12.order")
     # the ping lock guards plain dictionary operations only
     iq = repo.cls("yowsup/layers/protocol_iq/layer.py", "YowIqProtocolLayer")
     for name in ("gotPong", "waitPong"):
